@@ -223,6 +223,21 @@ def base_cases(ctx):
     f8 = corpus.chain_lines("1HPX", "A", 25, 8)
     cases.append(("frag-1HPX-A25+8 numbered from 1026", corpus.join(corpus.shift_numbers(f8, 1000) + [corpus.TER]), []))
     cases.append(("frag-1HPX-A25+8 numbered from -174", corpus.join(corpus.shift_numbers(f8, -200) + [corpus.TER]), []))
+    # terminal oxygens under the CHARMM / GROMOS names OT1 / OT2 (no atom called O or OXT in the last residue): by the
+    # statement's definition no residue carries a terminal oxygen then
+    tail = corpus.chain_lines("1HPX", "A", 85, 14) + [corpus.TER] + corpus.chain_lines("1HPX", "B", 0, 10) + [corpus.TER]
+    last_a = [corpus.resid(ln) for ln in tail if corpus.is_atom(ln) and ln[21] == "A"][-1]
+    ot = []
+    for ln in tail:
+        if corpus.is_atom(ln) and corpus.resid(ln) == last_a and ln[12:16].strip() in ("O", "OXT"):
+            ln = ln[:12] + (" OT1" if ln[12:16].strip() == "O" else " OT2") + ln[16:]
+        ot.append(ln)
+    cases.append(("frag-1HPX-A-tail+B-head OT1/OT2", corpus.join(ot), []))
+    neg8 = corpus.shift_numbers(f8, -200)
+    nums8 = sorted({corpus.resid(ln)[1] for ln in neg8 if corpus.is_atom(ln) and ln[17:20] in ("ASP", "GLU", "LYS", "ARG", "HIS", "TYR", "CYS")})
+    if nums8:
+        cases.append(("frag-1HPX-A25+8 numbered from -174 -i", corpus.join(neg8 + [corpus.TER]),
+                      ["-i", ",".join("A:%d" % n_ for n_ in nums8[:3])]))
     far8 = corpus.translate(corpus.shift_numbers(f8, 1000), 40000, 0, 0)
     cases.append(("frag-1HPX-A25+8 and its copy numbered +1000 in one chain", corpus.join(f8 + [corpus.TER] + far8 + [corpus.TER]), []))
     # small multi-conformation inputs (alternate locations, MODEL records, point mutants between conformations): every
